@@ -237,19 +237,21 @@ func Run(t *testing.T, cs Case, opts bubble.StackOpts, hello []byte, oracle func
 }
 
 // H2MutationCount is the number of (frame, field) mutation indices.
-const H2Frames = 6
+const H2Frames = 7
 
 var h2FieldVariants = 24
 
 // h2Mutation builds the h2 transcript preface+SETTINGS, WINDOW_UPDATE, HEADERS(1), PRIORITY, HEADERS(3)+DATA, PING
 // with frame index k/len mutated in header field variant val.
 func h2Mutation(cl *bubble.Client, k, val int) []byte {
-	blk1 := cl.Enc.Block(h2wire.HF{":method", "GET"}, h2wire.HF{":scheme", "https"}, h2wire.HF{":authority", "localhost"}, h2wire.HF{":path", "/m1"})
+	blk1 := cl.Enc.Block(h2wire.HF{":method", "GET"}, h2wire.HF{":scheme", "https"}, h2wire.HF{":authority", "localhost"}, h2wire.HF{":path", "/m1"}, h2wire.HF{"x-long", "0123456789abcdef0123456789abcdef"})
 	blk3 := cl.Enc.Block(h2wire.HF{":method", "POST"}, h2wire.HF{":scheme", "https"}, h2wire.HF{":authority", "localhost"}, h2wire.HF{":path", "/m3"})
+	cut := len(blk1) / 2
 	frames := [][]byte{
 		h2wire.Settings(h2wire.Setting{ID: 3, Val: 100}),
 		h2wire.WindowUpdate(0, 1000),
-		h2wire.Headers(1, blk1, true, true, nil, -1),
+		h2wire.Headers(1, blk1[:cut], true, false, nil, -1), // header block continued in the next frame
+		h2wire.Continuation(1, blk1[cut:], true),
 		h2wire.Priority(5, h2wire.Prio{Dep: 0, Weight: 10}),
 		h2wire.Headers(3, blk3, false, true, nil, -1),
 		h2wire.Data(3, []byte("hello world"), true, -1),
